@@ -485,6 +485,7 @@ pub fn run(ctx: &Ctx) {
         if !ctx.want(case) {
             continue;
         }
+        let _g = op_begin("one-shot-servers", case);
         run_case(ctx, &sz, case);
     }
 }
